@@ -297,7 +297,7 @@ def exTokB : Gen.RsTypes.RawToken :=
 def exTokC : Gen.RsTypes.RawToken :=
   { dst_line := 2, dst_col := 1, src_line := 3, src_col := 4294967290, src_id := 0, name_id := 0,
     is_range := true }
-def exampleMap : Gen.RsTypes.SourceMap := { tokens := [exTokA, exTokB, exTokC], names := [] }
+def exampleMap : Gen.RsTypes.SourceMap := { (default : SmVerif.Gen.RsTypes.SourceMap) with tokens := [exTokA, exTokB, exTokC], names := [] }
 
 /-- the hypothesis of `tie_lookup_token` on a concrete map -/
 example : ∀ t ∈ exampleMap.tokens, t.src_col < 4294967296 := by decide
@@ -310,7 +310,7 @@ example : (Gen.RsTypes.SourceMap.lookup_token exampleMap 2 100).map (Option.map 
     .ok (some (2, toTok exTokC, 4294967295)) := by
   rw [tie_lookup_token exampleMap 2 100 (by decide)]; rfl
 -- before the first token
-example : (Gen.RsTypes.SourceMap.lookup_token { tokens := [exTokB, exTokC], names := [] } 0 2).map (Option.map tokView) =
+example : (Gen.RsTypes.SourceMap.lookup_token { (default : SmVerif.Gen.RsTypes.SourceMap) with tokens := [exTokB, exTokC], names := [] } 0 2).map (Option.map tokView) =
     .ok none := by
   rw [tie_lookup_token _ 0 2 (by decide)]; rfl
 
